@@ -143,6 +143,9 @@ def gen_case(rng):
         i, j = rng.choice(idx), rng.choice(idx)
         e1 = ["+", ["*", gen.C(dyadic_nz(rng, -2, 2, 1)), xs[i]], gen.C(dyadic(rng, -1, 1, 1))]
         e2 = ["*", xs[j], xs[j]] if rng.random() < 0.5 else ["*", gen.C(dyadic_nz(rng, -2, 2, 1)), xs[j]]
+        while true_degree(["-", e1, e2], off + nx) < 1:
+            # the state must not cancel between the two sides (CasADi would hand rockit a constant relation)
+            e2 = ["*", gen.C(dyadic_nz(rng, -2, 2, 1)), xs[j]]
         c["inf"] = {"kind": "twosided", "lhs": e1, "rhs": e2, "expr": ["-", e1, e2],
                     "deg": 8 if e2[0] == "*" and e2[1] == xs[j] else 4}
     elif kind == "infder":
